@@ -7,6 +7,8 @@ import (
 	"encoding/json"
 	"fmt"
 	"math"
+	"os"
+	"os/exec"
 	"strings"
 
 	"github.com/biogo/biogo/alphabet"
@@ -115,6 +117,7 @@ func check(c *enum.Ctx, k kase) (nontrivial bool) {
 		var line string
 		var reported, origReported alphabet.Encoding
 		var origEnc byte
+		var origScores string
 		if c.Guard(k.Kind+"/panic", k, func() {
 			if k.Kind == "phred-container" {
 				p := quality.NewPhred("p", []alphabet.Qphred{alphabet.Qphred(k.V), 7}, e2)
@@ -126,7 +129,14 @@ func check(c *enum.Ctx, k kase) (nontrivial bool) {
 				}
 				p.SetEncoding(e)
 				enc, dec, pe, reported = p.QEncode(3), p.QDecode(byte(b)), p.EAt(3), p.Encoding()
+				if k.Via == "clone" {
+					// the copy is written on and reversed: the original keeps its scores
+					p.Set(3, 1)
+					p.SetE(4, 0.5)
+					p.Reverse()
+				}
 				origEnc, origReported = orig.QEncode(3), orig.Encoding()
+				origScores = fmt.Sprint(int(orig.At(3)), int(orig.At(4)))
 				return
 			}
 			q := linear.NewQSeq("q", []alphabet.QLetter{{L: 'a', Q: alphabet.Qphred(k.V)}, {L: 'c', Q: 7}}, alphabet.DNA, e2)
@@ -140,13 +150,21 @@ func check(c *enum.Ctx, k kase) (nontrivial bool) {
 			q.SetEncoding(e)
 			enc, dec, pe, reported = q.QEncode(3), q.Encode.DecodeToQphred(byte(b)), q.EAt(3), q.Encoding()
 			line = fmt.Sprintf("%q", q)
+			if k.Via == "clone" {
+				q.Set(3, alphabet.QLetter{L: 't', Q: 1})
+				q.Reverse()
+			}
 			origEnc, origReported = orig.QEncode(3), orig.Encoding()
+			origScores = fmt.Sprint(int(orig.At(3).Q), int(orig.At(4).Q))
 		}) {
 			return true
 		}
 		hist := fmt.Sprintf("built as %s, encoded, %sSetEncoding(%s)", encNames[e2], map[string]string{"": "", "clone": "copied, "}[k.Via], encNames[e])
 		if reported != e {
 			fail(k.Kind+"/Encoding", "%s: Encoding() = %s", hist, encNames[reported])
+		}
+		if want := fmt.Sprint(k.V, 7); k.Via == "clone" && origScores != want {
+			fail(k.Kind+"/original/scores", "%s, then the copy was written on and reversed: the original's scores are now %s, want %s", hist, origScores, want)
 		}
 		if k.Via == "clone" && e2 != alphabet.Solexa {
 			// the value the copy was taken from keeps its own encoding and still encodes by it
@@ -184,6 +202,7 @@ func check(c *enum.Ctx, k kase) (nontrivial bool) {
 		var pe float64
 		var back alphabet.Qsolexa
 		var origEnc byte
+		var origScores string
 		if c.Guard("solexa-container/panic", k, func() {
 			p := quality.NewSolexa("s", []alphabet.Qsolexa{alphabet.Qsolexa(k.V), 7}, alphabet.Encoding(k.Enc2))
 			p.Offset = 3
@@ -195,6 +214,11 @@ func check(c *enum.Ctx, k kase) (nontrivial bool) {
 			p.SetEncoding(alphabet.Solexa)
 			enc, dec, pe = p.QEncode(3), p.QDecode(byte(b)), p.EAt(3)
 			origEnc = orig.QEncode(3)
+			if k.Via == "clone" {
+				p.Set(3, 1)
+				p.Reverse()
+				origScores = fmt.Sprint(int(orig.At(3)), int(orig.At(4)))
+			}
 			p.SetE(4, pe)
 			back = p.At(4)
 		}) {
@@ -209,6 +233,9 @@ func check(c *enum.Ctx, k kase) (nontrivial bool) {
 		}
 		if want := 1 / (1 + math.Pow(10, float64(k.V)/10)); relErr(pe, want) > 1e-12 {
 			fail("solexa-container/EAt", "%s: EAt = %g for score %d, want %g", hist, pe, k.V, want)
+		}
+		if want := fmt.Sprint(k.V, 7); k.Via == "clone" && origScores != want {
+			fail("solexa-container/original/scores", "%s, then the copy was written on and reversed: the original's scores are now %s, want %s", hist, origScores, want)
 		}
 		if k.Via == "clone" && alphabet.Encoding(k.Enc2) == alphabet.Solexa && int(origEnc) != b {
 			fail("solexa-container/original/QEncode", "%s: the original (still Solexa) now encodes score %d as %d, want %d", hist, k.V, origEnc, b)
@@ -362,7 +389,7 @@ func check(c *enum.Ctx, k kase) (nontrivial bool) {
 }
 
 func run(c *enum.Ctx) {
-	c.Rule("complete enumeration: kind x encoding x all 256 values (x 5 offsets for the probability grids); the same encode/decode/probability laws through quality.Phred, quality.Solexa and linear.QSeq (QEncode, QDecode, EAt, SetE, %q) after every two-step encoding history (built with encoding A, encoded once, optionally copied, SetEncoding(B)) x all values; a case is non-trivial when the oracle applies (value inside the printable/representable range the statement names); distinct by (kind,encoding,value,offset)")
+	c.Rule("complete enumeration: kind x encoding x all 256 values (x 5 offsets for the probability grids); the same encode/decode/probability laws through quality.Phred, quality.Solexa and linear.QSeq (QEncode, QDecode, EAt, SetE, %q) after every two-step encoding history (built with encoding A, encoded once, optionally copied, SetEncoding(B)) x all values; each kind of law also as the first use of the package in a fresh process (12 cold-start helper processes); a case is non-trivial when the oracle applies (value inside the printable/representable range the statement names); distinct by (kind,encoding,value,offset)")
 	c.Assume("printable range: bytes 33..126 (Illumina1_5: 'B'..126; Solexa: 59..126, i.e. scores from -5)", "sentinel scores 254/255 (Phred) and 127/-128 (Solexa) are excluded", "math.Pow/math.Log10 of this Go toolchain are the analytic reference (1e-12 relative tolerance)")
 	add := func(k kase) {
 		c.Doing(0, k)
@@ -374,6 +401,34 @@ func run(c *enum.Ctx) {
 			}
 		}
 	}
+	enumerate(add)
+	// cold start: every kind of law again as the FIRST thing a fresh process does with the package
+	// (tables built lazily, caches filled on first use: the order of first uses must not matter)
+	for _, kind := range kinds {
+		out, err := exec.Command(os.Args[0], "--cold", kind).Output()
+		if err != nil {
+			c.NotExhaustive("cold-start helper for " + kind + ": " + err.Error())
+			continue
+		}
+		var vs []*enum.Violation
+		if json.Unmarshal(out, &vs) != nil {
+			c.NotExhaustive("cold-start helper for " + kind + ": unreadable output")
+			continue
+		}
+		for _, v := range vs {
+			var k kase
+			json.Unmarshal(v.Input, &k)
+			c.Fail("cold-start/"+v.Class, k, "as the first use of the package in a process: %s", v.Message)
+		}
+		c.Add("cold_start_processes", 1)
+	}
+}
+
+var kinds = []string{"phred-encode-decode", "solexa-encode-decode", "byte-decode-encode", "phred-container", "qseq-container", "solexa-container",
+	"phred-probe", "solexa-probe", "phred-to-solexa", "solexa-to-phred", "phred-eprob-grid", "solexa-eprob-grid"}
+
+// enumerate emits every case in a fixed order.
+func enumerate(add func(kase)) {
 	for v := 0; v < 256; v++ {
 		for _, e := range phredEnc {
 			add(kase{Kind: "phred-encode-decode", Enc: int(e), V: v})
@@ -411,6 +466,24 @@ func run(c *enum.Ctx) {
 }
 
 func main() {
+	if len(os.Args) == 3 && os.Args[1] == "--cold" {
+		vs := enum.Collect("C18", func(c *enum.Ctx) {
+			// start three quarters into the value range: the first call of the process should be one whose
+			// answer is not the zero value an unbuilt table would give
+			var mine []kase
+			enumerate(func(k kase) {
+				if k.Kind == os.Args[2] {
+					mine = append(mine, k)
+				}
+			})
+			start := len(mine) * 75 / 100
+			for i := range mine {
+				check(c, mine[(start+i)%len(mine)])
+			}
+		})
+		json.NewEncoder(os.Stdout).Encode(vs)
+		return
+	}
 	enum.Main("C18", "exploration", run, func(c *enum.Ctx, in json.RawMessage) {
 		var k kase
 		if err := json.Unmarshal(in, &k); err != nil {
